@@ -26,7 +26,8 @@ type miniProp struct {
 	segs  []miniSeg
 }
 type miniT struct {
-	kind  string // text elem vtext show if chain eq for include slot
+	kind  string // text elem vtext show if chain eq for for2 include slot
+	iv    int        // for2: index variable
 	props []miniProp
 	f     int        // include: component file
 	br    []miniBr   // chain: v-if / v-else-if branches
@@ -156,6 +157,12 @@ func miniGen(r *Rng, depth int, strVars, listVars []int, next *int, cx miniCtx) 
 			}
 			v := *next
 			*next++
+			if r.Intn(3) == 0 { // (index, item)
+				iv := *next
+				*next++
+				out = append(out, &miniT{kind: "for2", v: v, iv: iv, x: Pick(r, listVars), kids: miniGen(r, depth-1, append(append([]int{}, strVars...), v, iv), listVars, next, cx)})
+				continue
+			}
 			out = append(out, &miniT{kind: "for", v: v, x: Pick(r, listVars), kids: miniGen(r, depth-1, append(append([]int{}, strVars...), v), listVars, next, cx)})
 		}
 	}
@@ -208,6 +215,8 @@ func miniSrc(ts []*miniT) string {
 			fmt.Fprintf(&sb, `<template v-if="x%d == '%s'">%s</template>`, t.x, t.lit, miniSrc(t.kids))
 		case "for":
 			fmt.Fprintf(&sb, `<template v-for="x%d in x%d">%s</template>`, t.v, t.x, miniSrc(t.kids))
+		case "for2":
+			fmt.Fprintf(&sb, `<template v-for="(x%d, x%d) in x%d">%s</template>`, t.iv, t.v, t.x, miniSrc(t.kids))
 		case "show":
 			fmt.Fprintf(&sb, `<%s v-show="x%d">%s</%s>`, t.tag, t.x, miniSrc(t.kids), t.tag)
 		case "chain":
@@ -261,6 +270,8 @@ func miniCoq(ts []*miniT) string {
 			xs = append(xs, fmt.Sprintf("TEq %d %s %s", t.x, coqBytes(t.lit), miniCoq(t.kids)))
 		case "for":
 			xs = append(xs, fmt.Sprintf("TFor %d %d %s", t.v, t.x, miniCoq(t.kids)))
+		case "for2":
+			xs = append(xs, fmt.Sprintf("TFor2 %d %d %d %s", t.iv, t.v, t.x, miniCoq(t.kids)))
 		case "show":
 			xs = append(xs, fmt.Sprintf("TShow %s %d %s", coqBytes(t.tag), t.x, miniCoq(t.kids)))
 		case "chain":
@@ -399,14 +410,45 @@ func c01Mini(r *Run) {
 		compVars := append(append([]int{}, strVars...), 7, 8)
 		nComp := 2
 		comps := make([][]*miniT, nComp)
+		fms, fmc := make([]string, nComp), make([]string, nComp)
 		files := fstest.MapFS{}
 		var compCoq []string
 		for ci := nComp - 1; ci >= 0; ci-- {
 			comps[ci] = miniGen(rr, 2, compVars, listVars, &next, miniCtx{incFrom: ci + 1, nComp: nComp, slot: true})
-			files[fmt.Sprintf("c%d.vuego", ci)] = &fstest.MapFile{Data: []byte(miniSrc(comps[ci]))}
+			// front-matter: authoritative over the include's props and the includer's variables
+			fmSrc, fmCoq := "", ""
+			if rr.Intn(3) == 0 {
+				var ys, cs []string
+				used := map[int]bool{}
+				for j, m := 0, 1+rr.Intn(2); j < m; j++ {
+					k := Pick(rr, []int{7, 8, 0, 2})
+					if used[k] {
+						continue
+					}
+					used[k] = true
+					switch rr.Intn(4) {
+					case 0:
+						n := rr.Intn(3)
+						ys = append(ys, fmt.Sprintf("x%d: %d", k, n))
+						cs = append(cs, fmt.Sprintf("(%d, VNum %d)", k, n))
+					case 1:
+						b := rr.Bool()
+						ys = append(ys, fmt.Sprintf("x%d: %v", k, b))
+						cs = append(cs, fmt.Sprintf("(%d, VBool %v)", k, b))
+					default:
+						w := Pick(rr, []string{"fm", "", "false", "f m"})
+						ys = append(ys, fmt.Sprintf("x%d: %q", k, w))
+						cs = append(cs, fmt.Sprintf("(%d, VStr %s)", k, coqBytes(w)))
+					}
+				}
+				fmSrc = "---\n" + strings.Join(ys, "\n") + "\n---\n"
+				fmCoq = strings.Join(cs, "; ")
+			}
+			fms[ci], fmc[ci] = fmSrc, fmCoq
+			files[fmt.Sprintf("c%d.vuego", ci)] = &fstest.MapFile{Data: []byte(fmSrc + miniSrc(comps[ci]))}
 		}
 		for ci := 0; ci < nComp; ci++ {
-			compCoq = append(compCoq, miniCoq(comps[ci]))
+			compCoq = append(compCoq, fmt.Sprintf("([%s], %s)", fmc[ci], miniCoq(comps[ci])))
 		}
 		tpl := miniGen(rr, 3, strVars, listVars, &next, miniCtx{incFrom: 0, nComp: nComp})
 		src := miniSrc(tpl)
@@ -418,6 +460,6 @@ func c01Mini(r *Run) {
 			impl = A(miniCanon(out))
 		}
 		r.Case("mini", fmt.Sprintf("CMini [%s] [%s] %s", strings.Join(compCoq, "; "), strings.Join(envCoq, "; "), miniCoq(tpl)), impl,
-			map[string]any{"template": src, "c0.vuego": miniSrc(comps[0]), "c1.vuego": miniSrc(comps[1]), "data": fmt.Sprint(data), "output": out, "err": fmt.Sprint(err)}, nil, strings.ContainsAny(fmt.Sprint(data), "<&\"{"))
+			map[string]any{"template": src, "c0.vuego": fms[0] + miniSrc(comps[0]), "c1.vuego": fms[1] + miniSrc(comps[1]), "data": fmt.Sprint(data), "output": out, "err": fmt.Sprint(err)}, nil, strings.ContainsAny(fmt.Sprint(data), "<&\"{"))
 	}
 }
